@@ -5,7 +5,7 @@ import ast
 
 from ..cfg import CFG, always_raises
 from ..core import AnalysisError, calls_in, call_name, dotted, unparse, walk_no_nested
-from ..match import Field, const_int, field_of, inline, pack_call, packed_bytes, single_assignments
+from ..match import Field, alias_root, const_int, field_of, inline, pack_call, packed_bytes, single_assignments
 from ..report import Ctx
 
 LEVEL = "other"
@@ -49,8 +49,10 @@ def r1_framing(ctx: Ctx) -> None:
     want = [(addr, 16), (addr, 8), (addr, 0), (f"len({blk})", 8), (f"len({blk})", 0)]
     if not ctx.check(len(header) == 5, "write_block_header:size", f"a record header is 5 bytes (3 offset + 2 length); {len(header)} are written"):
         return
+    def root(name: str | None) -> str | None:
+        return alias_root(h.node, name) if name and name.isidentifier() else name
     for j, (b, (src, bit)) in enumerate(zip(header, want)):
-        ctx.check((b.source, b.bit) == (src, bit) and not b.signed, f"write_block_header:byte{j}", f"writes {b}; the IPS header needs bits {bit}..{bit + 7} of {src} (big-endian)")
+        ctx.check((root(b.source), b.bit) == (src, bit) and not b.signed, f"write_block_header:byte{j}", f"writes {b}; the IPS header needs bits {bit}..{bit + 7} of {src} (big-endian)")
     ctx.check(header[0].checked, "write_block_header:offset-range-checked", "the top offset byte is packed unmasked in a one-byte field, so an offset >= 2^24 raises instead of wrapping")
     ctx.count("header_fields", 5)
 
@@ -157,15 +159,19 @@ def r2_tiling_loop(ctx: Ctx) -> None:
 def r3_no_wrap_and_copier(ctx: Ctx) -> None:
     h = ctx.repo.func(W, "IPSWriter.write_block_header")
     addr = h.params()[2]
-    ifs = [s for s in h.node.body if isinstance(s, ast.If) and unparse(s.test) == "self._copier_header"]
+    def is_addr(name: str) -> bool:
+        return name.isidentifier() and alias_root(h.node, name) == addr
+    ifs = [s for s in walk_no_nested(h.node) if isinstance(s, ast.If) and unparse(s.test) == "self._copier_header"]
     ok = len(ifs) == 1 and len(ifs[0].body) == 1 and isinstance(ifs[0].body[0], ast.AugAssign) and isinstance(ifs[0].body[0].op, ast.Add) \
-        and unparse(ifs[0].body[0].target) == addr and const_int(ifs[0].body[0].value) == 0x200 and not ifs[0].orelse
+        and is_addr(unparse(ifs[0].body[0].target)) and const_int(ifs[0].body[0].value) == 0x200 and not ifs[0].orelse
     ctx.check(ok, "write_block_header:copier-delta", "adds exactly 0x200 when the copier-header flag is set, nothing otherwise")
-    if ifs:
+    g3 = CFG(h.node)
+    if ifs and ok:
         ws = _writes(h.node)
-        first_write = min(h.node.body.index(_stmt_of(h.node, w)) for w in ws) if ws else -1
-        ctx.check(h.node.body.index(ifs[0]) < first_write, "write_block_header:delta-before-pack", "the delta is applied before the offset is packed")
-    others = [s for s in walk_no_nested(h.node) if isinstance(s, (ast.Assign, ast.AugAssign)) and addr in {unparse(t) for t in (s.targets if isinstance(s, ast.Assign) else [s.target])}]
+        dn = g3.node_of(ifs[0].test)
+        ctx.check(all(g3.dominated_by(g3.node_containing(w), [dn]) for w in ws), "write_block_header:delta-before-pack", "the delta is applied before the offset is packed")
+    others = [s for s in walk_no_nested(h.node) if isinstance(s, ast.AugAssign) and is_addr(unparse(s.target))] + \
+             [s for s in walk_no_nested(h.node) if isinstance(s, ast.Assign) and any(is_addr(unparse(t)) for t in s.targets) and not (isinstance(s.value, ast.Name) and is_addr(s.value.id))]
     ctx.check(len(others) == (1 if ifs else 0), "write_block_header:offset-untouched", f"the offset is modified only by the copier delta (no mask/modulo); found {[unparse(o) for o in others]}")
     init = ctx.repo.func(W, "IPSWriter.__init__")
     st = [n for n in walk_no_nested(init.node) if isinstance(n, ast.Assign) and unparse(n.targets[0]) == "self._copier_header"]
@@ -185,7 +191,7 @@ def r4_reserved_offset(ctx: Ctx) -> None:
                     sides = [c.left, c.comparators[0]]
                     vals = [const_int(x) for x in sides]
                     names = [unparse(x) for x in sides]
-                    if EOF_AS_OFFSET in vals and addr in names:
+                    if EOF_AS_OFFSET in vals and any(n.isidentifier() and alias_root(h.node, n) == addr for n in names):
                         checks.append(s)
     if not checks:
         ctx.fail("write_block_header:offset-0x454F46", "a record at offset 0x454F46 is written; its header reads as the 'EOF' marker and every reader stops there")
@@ -194,8 +200,8 @@ def r4_reserved_offset(ctx: Ctx) -> None:
     tests = [g.node_of(c.test) for c in checks]
     ok = all(g.dominated_by(g.node_containing(w), tests) for w in ws)
     # the check must see the final offset: after the copier delta
-    deltas = [s for s in h.node.body if isinstance(s, ast.If) and unparse(s.test) == "self._copier_header"]
-    after = all(h.node.body.index(c) > h.node.body.index(d) for c in checks if c in h.node.body for d in deltas)
+    deltas = [s for s in walk_no_nested(h.node) if isinstance(s, ast.If) and unparse(s.test) == "self._copier_header"]
+    after = all(g.dominated_by(g.node_of(c.test), [g.node_of(d.test)]) for c in checks for d in deltas)
     ctx.check(ok and after, "write_block_header:offset-0x454F46", "the final offset (after the copier delta) is compared with 0x454F46 and refused before anything is written")
     ctx.count("reserved_checks", len(checks))
 
